@@ -183,10 +183,10 @@ def check_1d(case, ctx: Ctx):
 
 @st.composite
 def programs_1d(draw, tier="quick"):
-    form = draw(st.sampled_from(["static", "static", "numpy", "fixed"]))
+    form = draw(st.sampled_from(["static", "static", "numpy", "fixed", "fixed"]))
     case = {"binform": form}
     if form == "fixed":
-        w = draw(st.sampled_from([0.25, 0.5, 1.0, 2.0, 0.1, 2.5]))
+        w = draw(st.sampled_from([0.25, 0.5, 1.0, 0.1, 2.5, 0.3, 0.7, 0.01, 3.3, 0.2]))
         n = draw(st.integers(1, 8))
         mn = draw(st.integers(-8, 8)) * w
         case["w"] = w
@@ -417,6 +417,6 @@ FINDINGS = [
 ]
 
 SUBS = [
-    Sub("fill_1d", lambda tier: programs_1d(tier), check_1d, quick=700, thorough=6000),
+    Sub("fill_1d", lambda tier: programs_1d(tier), check_1d, quick=1200, thorough=6000),
     Sub("fill_nd", lambda tier: programs_nd(tier), check_nd, quick=500, thorough=4000),
 ]
